@@ -1181,11 +1181,48 @@ def every_path_has(fn, bb, pred):
     """True if every feasible path from the entry to block `bb` carries an atom (e, polarity) with pred(e, polarity) -
     boolean locals assigned in several arms are read along the path (bool_resolved_atoms).  Vacuously true when no
     path is feasible (the block cannot be reached in this configuration)."""
-    for _t, atoms0, env in enum_paths(fn, 0, {bb}, want_env=True):
+    # conditions that dominate the block hold on every path
+    if any(pred(strip_casts(simplify_proj(strip_casts(e))), p) for _d, e, p in path_conditions(fn, bb)):
+        return True
+    try:
+        paths = enum_paths(fn, 0, {bb}, want_env=True)
+    except AnchorMissing:
+        # too many paths from the entry of a large function: enumerate from a dominator some levels up (locals
+        # assigned before it stay opaque, which can only lose atoms - never invent one)
+        doms = [d for d in range(len(fn.blocks)) if fn.live(d) and d != bb and fn.dominates(d, bb)]
+        doms.sort(key=lambda d: sum(1 for x in doms if fn.dominates(x, d)))
+        paths = None
+        for back in (24, 16, 10, 6, 3):
+            if len(doms) >= 1:
+                start = doms[max(0, len(doms) - back)]
+                try:
+                    paths = enum_paths(fn, start, {bb}, want_env=True)
+                    break
+                except AnchorMissing:
+                    continue
+        if paths is None:
+            raise
+    for _t, atoms0, env in paths:
         atoms, feasible = bool_resolved_atoms(fn, atoms0, env)
         if feasible and not any(pred(e, p) for e, p in atoms):
             return False
     return True
+
+
+def some_path_has(fn, bb, pred):
+    """True if some feasible path from the entry to block `bb` carries an atom with pred(e, polarity) (boolean locals
+    read along the path, as in every_path_has)."""
+    if any(pred(strip_casts(simplify_proj(strip_casts(e))), p) for _d, e, p in path_conditions(fn, bb)):
+        return True
+    try:
+        paths = enum_paths(fn, 0, {bb}, want_env=True)
+    except AnchorMissing:
+        return False
+    for _t, atoms0, env in paths:
+        atoms, feasible = bool_resolved_atoms(fn, atoms0, env)
+        if feasible and any(pred(e, p) for e, p in atoms):
+            return True
+    return False
 
 
 def enum_paths(fn, start, targets, limit=20000, want_env=False, resolve_atoms=False):
@@ -1197,8 +1234,20 @@ def enum_paths(fn, start, targets, limit=20000, want_env=False, resolve_atoms=Fa
     succ = fn.succ()
     out = []
     count = [0]
+    # only blocks from which a target can still be reached are worth walking
+    pred_ = fn.pred()
+    alive = set()
+    todo = [t for t in targets if 0 <= t < len(fn.blocks)]
+    while todo:
+        x = todo.pop()
+        if x in alive:
+            continue
+        alive.add(x)
+        todo.extend(pred_[x])
 
     def walk(bb, env, atoms, seen):
+        if bb not in alive:
+            return
         count[0] += 1
         if count[0] > limit:
             raise AnchorMissing("path enumeration in %s exceeds %d steps" % (fn.short, limit))
